@@ -11,7 +11,9 @@ PRIMS = ["bool", "int", "float", "str", "nestr", "duration", "unit", "quantity",
 
 STR_POOL = ["x", "äöü ✓", "line\nbreak", "\"quoted\"", "yes", "no", "null", "~", "1.0", "0123", "- item", "# c", "@id", "a: b",
             "{}", "[1]", "true", "  padded  ", "tab\there", "'single'", "\\back", "é" * 40, "%", "!tag", "&anchor", "*alias", "|",
-            ">", "0x1F", "1e3", ".inf", "2001-01-01", "=", "NaN"]
+            ">", "0x1F", "1e3", ".inf", "2001-01-01", "=", "NaN",
+            # beyond the Basic Multilingual Plane (JSON writes surrogate pairs), other awkward code points
+            "smile \U0001F600", "\U0001D6FC", "\U00020BB7 han", "\u2028 ls", "nbsp\u00a0", "\x7f del", "zero\u200bwidth"]
 
 
 def prim_types():
@@ -271,6 +273,37 @@ def run(tier: str) -> int:
         rep.traces = n
         rep.sample({"fields": cases[len(cases) // 2]["fields"], "const": cases[len(cases) // 2]["const"],
                     "instance": cases[len(cases) // 2]["inst"], "expected_keys": cases[len(cases) // 2]["keys"]})
+        # the "marked subclasses" pattern: a constant declared for a field that is inherited as an ordinary field
+        # (Literal / enum specialisation), also when the inherited default already equals the constant
+        from metador_core.schema import MetadataSchema as _MS
+        from metador_core.schema.decorators import add_const_fields as _acf
+        nspec = 0
+        for dflt in ("generic", "special", None):
+            for const in ("generic", "special"):
+                _counter[0] += 1
+                ann = {"kind": Literal["generic", "special"] if dflt is not None else Optional[Literal["generic", "special"]],
+                       "v": Optional[int]}
+                body = {"__annotations__": ann}
+                if dflt is not None:
+                    body["kind"] = dflt
+                KP = type(_MS)(f"KP{_counter[0]}", (_MS,), body)
+                KC = _acf({"kind": const})(type(_MS)(f"KC{_counter[0]}", (KP,), {}))
+                other = "special" if const == "generic" else "generic"
+                label = f"parent kind default={dflt!r}, child constant kind={const!r}"
+                nspec += 1
+                try:
+                    for how, x in (("kwargs", KC(kind=other, v=1)), ("parse_obj", KC.parse_obj({"kind": other, "v": 1})),
+                                   ("parse_raw", KC.parse_raw(json.dumps({"kind": other, "v": 1}))), ("omitted", KC(v=1))):
+                        d = json.loads(x.json())
+                        if d.get("kind") != const or KC.parse_raw(bytes(x)) != x or "kind" not in KC.__constants__:
+                            rep.violation(f"constant over an inherited field not forced ({how}): {label}: dumped {d}", {"case": label})
+                            break
+                    if KP.parse_raw(bytes(KC(v=2))).kind != const:
+                        rep.violation(f"the parent does not read the child's constant: {label}", {"case": label})
+                except Exception as ex:
+                    rep.violation(f"constant over an inherited field: {label}: {type(ex).__name__}: {str(ex)[:150]}", {"case": label})
+        rep.parts["constant_specialisation"] = {"cases": nspec}
+        rep.evaluations += nspec
         # installed schema plugins: generated valid instances must round trip
         ninst = 0
         inst_pool = installed_instances()
